@@ -107,6 +107,7 @@ type g struct {
 	// is rejected by the compiler at b12758c ("expected movement command, but got '}'": the
 	// list parser looks for ')' as its end) - a C12 matter, noted in DESIGN.md, not ours.
 	colonOnly bool
+	tinySteps bool
 }
 
 func (x *g) id(prefix string) string {
@@ -126,6 +127,9 @@ func Gen(r *rng.R, c *Config) *File {
 		v := vals[i][r.Intn(len(vals[i]))]
 		if r.P(0.15) {
 			v = "OTHER" // matches no case: only '_' can catch it
+		} else if r.P(0.08) {
+			// same word, other letter case: still matches no case exactly
+			v = strings.ToUpper(v[:1]) + strings.ToLower(v[1:])
 		}
 		x.f.Switches[keys[i]] = v
 	}
@@ -141,6 +145,7 @@ func Gen(r *rng.R, c *Config) *File {
 			x.autos = append(x.autos, name)
 		}
 	}
+	x.tinySteps = r.P(0.1)
 	// fonts
 	x.f.Fonts = x.fonts()
 	n := r.Range(1, c.MaxItems)
@@ -479,6 +484,23 @@ func (x *g) porySwitch(inner func(brace bool) []string, forceAll bool) []string 
 			t = append(t, "}")
 		}
 	}
+	if r.P(0.06) && len(vals) > 0 {
+		// a label that differs from another one (and from the -s value) only in letter case
+		v := vals[p[0]]
+		alt := strings.ToLower(v)
+		if alt == v {
+			alt = strings.ToUpper(v)
+		}
+		t = append(t, alt)
+		if r.Bool() || x.colonOnly {
+			t = append(t, ":")
+			t = append(t, inner(false)...)
+		} else {
+			t = append(t, "{")
+			t = append(t, inner(true)...)
+			t = append(t, "}")
+		}
+	}
 	if !hasCur || r.P(0.5) {
 		t = append(t, "_")
 		if r.Bool() || x.colonOnly {
@@ -494,7 +516,7 @@ func (x *g) porySwitch(inner func(brace bool) []string, forceAll bool) []string 
 	return t
 }
 
-var stepNames = []string{"walk_up", "walk_down", "walk_left", "face_player", "delay_16", "jump_2_right", "set_invisible"}
+var stepNames = []string{"walk_up", "walk_down", "walk_left", "face_player", "delay_16", "delay_1", "delay_2", "delay_4", "delay_8", "jump_2_right", "set_invisible"}
 
 func (x *g) steps(multi bool) []string {
 	r := x.r
@@ -502,6 +524,9 @@ func (x *g) steps(multi bool) []string {
 	n := 1
 	if multi {
 		n = r.Range(0, 5)
+		if x.tinySteps {
+			n = r.Range(1, 2)
+		}
 	}
 	if multi && r.P(0.1) {
 		// a list made only of poryswitch blocks (empty when nothing is selected, e.g. in lint mode)
@@ -515,9 +540,18 @@ func (x *g) steps(multi bool) []string {
 			t = append(t, x.porySwitch(func(brace bool) []string { return x.steps(brace) }, false)...)
 			continue
 		}
-		t = append(t, stepNames[r.Intn(len(stepNames))])
-		if r.P(0.3) {
-			t = append(t, "*", fmt.Sprint(r.Range(1, 4)))
+		if x.tinySteps {
+			// adversarial naming: names that are other names followed by digits, so that any
+			// key / label built by concatenation without a separator can collide
+			t = append(t, []string{"d_1", "d_11", "d_16", "d_116"}[r.Intn(4)])
+			if r.P(0.5) {
+				t = append(t, "*", []string{"1", "6", "16"}[r.Intn(3)])
+			}
+		} else {
+			t = append(t, stepNames[r.Intn(len(stepNames))])
+			if r.P(0.3) {
+				t = append(t, "*", fmt.Sprint([]int{1, 2, 3, 4, 6, 8, 16}[r.Intn(7)]))
+			}
 		}
 		if multi && r.P(0.2) {
 			t = append(t, ",")
